@@ -23,7 +23,9 @@ import vp, render_check
 # All template text below is free of the four characters; every value carries all of them.
 SP = "<'\">"
 TAINTED = [("string", SP), ("bytes", {"$bytes": list(SP.encode())}), ("array", [SP, [SP]]), ("map", {SP: SP, "k": SP, "n": {"x": SP}}),
-           ("mixed", [{"k": SP}, {"$bytes": list(SP.encode())}, 1]), ("int", 7), ("none", None)]
+           ("mixed", [{"k": SP}, {"$bytes": list(SP.encode())}, 1]), ("int", 7), ("none", None),
+           # each special character as the ONLY one in the value
+           ("only-apostrophe", "it's"), ("only-quote", 'say "x"'), ("only-lt", "a<b"), ("only-gt", "a>b"), ("apostrophe-in-array", ["it's"]), ("apostrophe-in-map", {"k": "it's", "it's": 1})]
 ROUTES = [
     "{{ v }}", "{% set x = v %}{{ x }}", "{% set x %}{{ v }}{% endset %}{{ x }}", "{% set_global x = v %}{{ x }}",
     "{% filter upper %}{{ v }}{% endfilter %}", "{% filter trim %}a{{ v }}{% endfilter %}",
